@@ -54,6 +54,18 @@ def extras():
                 [({"hdr": {}, "_items": [1, 2], "t": 9}, {"hdr": {"cnt": 2}, "t": 9})]))
     out.append((["Struct", [["_k", BY], ["v", ["Switch", ["this", "_k"], [[1, BY], [2, G.I(2, False, "b")]], None]], ["t", BY]]],
                 [({"_k": 2, "v": 258, "t": 1}, {"v": 258, "t": 1}), ({"_k": 1, "v": 7, "t": 1}, {"v": 7, "t": 1})]))
+    # elements whose layout depends on their position (this._index) in every repeater: build must publish the index like parse does
+    IDX1 = ["bin", "+", ["path", ["_index"]], ["k", 1]]
+    for elem, vals in ((["Bytes", IDX1], [b"a", b"bb", b"ccc"]), (["Padded", IDX1, BY, b"\x00"], [1, 2, 3]),
+                       (["Struct", [["i", ["Rebuild", BY, ["path", ["_", "_index"]]]], ["d", ["Bytes", ["this", "i"]]]]], [{"i": 0, "d": b""}, {"i": 1, "d": b"x"}, {"i": 2, "d": b"yz"}])):
+        plain = [v if not isinstance(v, dict) else dict(v) for v in vals]
+        noidx = [v if not isinstance(v, dict) else {k: x for k, x in v.items() if k != "i"} for v in vals]
+        for rep in (["Array", 3, elem], ["Prefixed", BY, ["GreedyRange", elem], False], ["RepeatUntil", ["lenge", 3], elem],
+                    ["Struct", [["head", ["Array", 2, BY]], ["rows", ["Prefixed", BY, ["GreedyRange", elem], False]]]]):
+            if rep[0] == "Struct":
+                out.append((rep, [({"head": [7, 8], "rows": noidx}, {"head": [7, 8], "rows": plain})]))
+            else:
+                out.append((rep, [(noidx, plain)]))
     return out
 
 
